@@ -82,8 +82,8 @@ func init() {
 
 // connStateExceptions lists sites accepted although the typestate cannot establish liveness.
 var connStateExceptions = map[string]string{
-	"gnet.(*eventloop).readUDP|EventHandler.OnTraffic on c":              "c is either the fresh per-datagram conn or the registered client UDP conn of fd; the registry hit is not nil-checked (dispatch invariant: readUDP runs only for a listener fd or a registered UDP conn, and Recvfrom on a closed fd returns before this point)",
-	"gnet.(*eventloop).register|call gnet.(*eventloop).register0 with c": "the conn arrives across the task boundary from accept0/enroll/EnrollContext, which construct it, never touch it again after a successful Trigger and submit it exactly once (C05.5)",
+	"gnet.(*eventloop).readUDP|EventHandler.OnTraffic on *":              "the conn is either the fresh per-datagram conn or the registered client UDP conn of fd; the registry hit is not nil-checked (dispatch invariant: readUDP runs only for a listener fd or a registered UDP conn, and Recvfrom on a closed fd returns before this point)",
+	"gnet.(*eventloop).register|call gnet.(*eventloop).register0 with *": "the conn arrives across the task boundary from accept0/enroll/EnrollContext, which construct it, never touch it again after a successful Trigger and submit it exactly once (C05.5)",
 }
 
 func runConnState(c *core.Ctx, kind string) {
@@ -93,7 +93,13 @@ func runConnState(c *core.Ctx, kind string) {
 	}
 	r := connStateOf(c, v)
 	emit := func(s connSite) {
+		// the exception names the function and the operation, not the spelling of the conn expression
 		key := s.unit + "|" + s.construct
+		if i := strings.LastIndex(key, " with "); i >= 0 {
+			key = key[:i] + " with *"
+		} else if i := strings.LastIndex(key, " on "); i >= 0 {
+			key = key[:i] + " on *"
+		}
 		if why, ok := connStateExceptions[key]; ok && !s.ok {
 			c.Ok(s.unit, s.construct, s.pos, "exception: "+why)
 			return
@@ -515,7 +521,7 @@ func allLits(n ast.Node) []*ast.FuncLit {
 func underCaseClose(f *fn, g *flow.Graph, site *ast.CallExpr, closeAction *types.Const) bool {
 	p := &flow.Problem{Must: true}
 	p.Edge = func(e *flow.Edge, in uint64) uint64 {
-		if e.Tag != nil && e.Sense && flow.ObjOf(f.Info, e.Cond) == closeAction {
+		if l, r, eq, ok := flow.Equality(e); ok && eq && (flow.ObjOf(f.Info, r) == types.Object(closeAction) || flow.ObjOf(f.Info, l) == types.Object(closeAction)) {
 			in |= 1
 		}
 		return in
@@ -535,6 +541,9 @@ func underCaseClose(f *fn, g *flow.Graph, site *ast.CallExpr, closeAction *types
 // errNonNilAt decides whether errObj is non-nil at site on every path, tracking also the zero-ness
 // of int variables compared with 0 in the same conditions (err != nil || n == 0 idiom).
 func errNonNilAt(f *fn, g *flow.Graph, site *ast.CallExpr, errObj types.Object) bool {
+	if nonNilByFacts(f, g, site, errObj) {
+		return true
+	}
 	// find an int variable compared with 0 anywhere in the body (at most one is tracked)
 	var nObj types.Object
 	ast.Inspect(g.Body, func(n ast.Node) bool {
@@ -564,7 +573,7 @@ func errNonNilAt(f *fn, g *flow.Graph, site *ast.CallExpr, errObj types.Object) 
 				if isErr(l) {
 					s &^= eNN
 					if len(as.Rhs) == len(as.Lhs) {
-						if o := flow.ObjOf(f.Info, as.Rhs[k]); o != nil && o.Pkg() != nil && o.Pkg().Path() == "io" && o.Name() == "EOF" {
+						if o := flow.ObjOf(f.Info, as.Rhs[k]); o != nil && o.Pkg() != nil && o.Pkg().Path() == "io" && nameOf(o) == "EOF" {
 							s |= eNN
 						}
 					}
@@ -689,4 +698,97 @@ func runC04_8(c *core.Ctx) {
 		c.Check(!bad, f.Name, "outbound buffer emptied", b.Return.Pos(), "release() empties the outbound buffer of stream conns",
 			"release() can return without emptying the outbound buffer of a stream conn: a stale writable event would flush old data to a reused descriptor")
 	})
+}
+
+// nonNilByFacts: a must-analysis over all local error variables. A variable is known non-nil after the
+// true edge of `v != nil` (false edge of `v == nil`), after `v = io.EOF`, after a copy of a known
+// variable and after `v = os.NewSyscallError(_, w)` with w known (NewSyscallError returns nil only for nil).
+func nonNilByFacts(f *fn, g *flow.Graph, site *ast.CallExpr, errObj types.Object) bool {
+	var vars []types.Object
+	idx := func(o types.Object) int {
+		for i, v := range vars {
+			if v == o {
+				return i
+			}
+		}
+		return -1
+	}
+	ast.Inspect(g.Body, func(n ast.Node) bool {
+		if id, ok := n.(*ast.Ident); ok {
+			o := f.Info.Defs[id]
+			if o == nil {
+				o = f.Info.Uses[id]
+			}
+			if v, ok := o.(*types.Var); ok && !v.IsField() && isErrorType(v.Type()) && idx(v) < 0 && len(vars) < 60 {
+				vars = append(vars, v)
+			}
+		}
+		return true
+	})
+	me := idx(errObj)
+	if me < 0 {
+		return false
+	}
+	known := func(e ast.Expr, in uint64) bool {
+		e = ast.Unparen(e)
+		if o := flow.ObjOf(f.Info, e); o != nil {
+			if o.Pkg() != nil && o.Pkg().Path() == "io" && nameOf(o) == "EOF" {
+				return true
+			}
+			if k := idx(o); k >= 0 {
+				return in&(1<<uint(k)) != 0
+			}
+		}
+		if call, ok := e.(*ast.CallExpr); ok && flow.IsPkgFunc(f.Info, call, "os", "NewSyscallError") && len(call.Args) == 2 {
+			if o := flow.ObjOf(f.Info, call.Args[1]); o != nil {
+				if k := idx(o); k >= 0 {
+					return in&(1<<uint(k)) != 0
+				}
+			}
+		}
+		return false
+	}
+	p := &flow.Problem{Must: true}
+	p.Node = func(b *flow.Block, i int, n ast.Node, in uint64) uint64 {
+		flow.Events(n, func(x ast.Node) {
+			as, ok := x.(*ast.AssignStmt)
+			if !ok {
+				return
+			}
+			out := in
+			for k, l := range as.Lhs {
+				j := idx(flow.ObjOf(f.Info, l))
+				if j < 0 {
+					continue
+				}
+				out &^= 1 << uint(j)
+				if len(as.Rhs) == len(as.Lhs) && known(as.Rhs[k], in) {
+					out |= 1 << uint(j)
+				}
+			}
+			in = out
+		})
+		return in
+	}
+	p.Edge = func(e *flow.Edge, in uint64) uint64 {
+		if e.Cond == nil || e.Tag != nil {
+			return in
+		}
+		if x, y, op, ok := flow.Cmp(e.Cond); ok && flow.IsNil(f.Info, y) {
+			if k := idx(flow.ObjOf(f.Info, x)); k >= 0 && (op == token.NEQ) == e.Sense {
+				in |= 1 << uint(k)
+			}
+		}
+		return in
+	}
+	sol := g.Solve(p)
+	res := false
+	sol.Walk(func(b *flow.Block, i int, n ast.Node, before uint64) {
+		for _, call := range flow.Calls(n) {
+			if call == site && before&(1<<uint(me)) != 0 {
+				res = true
+			}
+		}
+	})
+	return res
 }
